@@ -118,6 +118,10 @@ type h1conn struct {
 	used     bool
 	noReuse  bool
 	afterSig bool
+	// pieces > 1: every request is written in that many pieces with gap between them (a slow or large upload that
+	// reaches the proxy in several reads)
+	pieces int
+	gap    time.Duration
 }
 
 func dialH1(r *run, addr string) (xconn, error) {
@@ -178,6 +182,22 @@ func (x *h1conn) do(p *plan, h *hooks, res *result) {
 		}
 		first, rest = raw[:cut], raw[cut:]
 	}
+	var later [][]byte
+	if rest == nil && x.pieces > 1 && len(raw) >= 4*x.pieces {
+		n := len(raw) / x.pieces
+		first = raw[:n]
+		for off := n; off < len(raw); off += n {
+			end := off + n
+			if end > len(raw) || len(raw)-end < n {
+				end = len(raw)
+			}
+			later = append(later, raw[off:end])
+			if end == len(raw) {
+				break
+			}
+		}
+		res.Pieces = 1 + len(later)
+	}
 	before, err := x.r.gated(func() error { return x.send(first) })
 	res.BeforeSig = before
 	if err != nil {
@@ -186,6 +206,14 @@ func (x *h1conn) do(p *plan, h *hooks, res *result) {
 		return
 	}
 	defer x.r.doneOne()
+	for i, pc := range later {
+		time.Sleep(x.gap)
+		if err := x.send(pc); err != nil {
+			x.noReuse = true
+			res.Kind, res.Detail = "send-error", fmt.Sprintf("piece %d of %d: %v", i+2, 1+len(later), err)
+			return
+		}
+	}
 	if rest != nil {
 		h.fire()
 		time.Sleep(h.post)
